@@ -16,7 +16,7 @@ from .common import Out, drop_each, with_, REAL_ALL, STUB_ALL
 from csvpath.util.line_spooler import CsvLineSpooler
 
 ID = "C09"
-TIERS = {"quick": {"n": 1500, "chunk": 25}, "thorough": {"n": 36000, "chunk": 100, "wall_cap": 3300}}
+TIERS = {"quick": {"n": 5000, "chunk": 60}, "thorough": {"n": 150000, "chunk": 200, "wall_cap": 3300}}
 RULE = (
     "each scenario: a generated file (1-9 records, blanks, ragged rows, cells with quotes/delimiters/newlines/non-ASCII), a group of 1-3 generated members (1-5 components from assignments, push, tally, print, "
     "stop/skip/advance/fail under '->', last(), onmatch, erroring add(); some with unmatched-mode keep, some without identity), one of 7 run forms, a non-raising error policy, optionally a second run "
